@@ -535,19 +535,16 @@ func parseRaces(stderr string) [][2]string {
 	return out
 }
 
-// runRaceChild runs the scenarios in the -race build and turns its findings into failures.
-// Returns the observed racing function pairs.
-func runRaceChild(c *lib.Ctx, rb *raceBuild, ins []concIn, idPrefix string) (pairs [][2]string, ran bool) {
-	<-rb.done
-	if rb.err != "" {
-		c.Res.Notes = append(c.Res.Notes, "race detector not usable here (go build -race failed), concurrent part ran as stress only: "+rb.err)
-		c.Count("race-detector:unavailable")
-		return nil, false
-	}
+var fatalRe = regexp.MustCompile(`(?m)^(fatal error: .*|panic: .*)$`)
+
+// runChild runs the scenarios in a child process (this program itself, or its -race build): a Go
+// runtime "fatal error: concurrent map read and map write" cannot be recovered in-process.
+// Returns the racing function pairs reported by the race detector (race build only).
+func runChild(c *lib.Ctx, exe string, race bool, ins []concIn, idPrefix string) (pairs [][2]string) {
 	arg, _ := json.Marshal(ins)
-	ctx, cancel := context.WithTimeout(context.Background(), 300*time.Second)
+	ctx, cancel := context.WithTimeout(context.Background(), 600*time.Second)
 	defer cancel()
-	cmd := exec.CommandContext(ctx, rb.exe, "racechild", string(arg))
+	cmd := exec.CommandContext(ctx, exe, "racechild", string(arg))
 	cmd.Env = append(os.Environ(), "GORACE=exitcode=0 halt_on_error=0 history_size=3")
 	var so, se bytes.Buffer
 	cmd.Stdout, cmd.Stderr = &so, &se
@@ -559,16 +556,34 @@ func runRaceChild(c *lib.Ctx, rb *raceBuild, ins []concIn, idPrefix string) (pai
 			found = json.Unmarshal([]byte(line[len("C20RESULT "):]), &res) == nil
 		}
 	}
+	suffix := ""
+	if race {
+		suffix = " (under -race)"
+	}
 	if err != nil || !found {
-		c.Res.Notes = append(c.Res.Notes, fmt.Sprintf("race child did not finish (%v): %s", err, tail(se.String(), 800)))
-		c.Fail(idPrefix+"-race", "race-child-crash", "the concurrent scenarios crashed under the race detector: "+tail(se.String(), 300), c20in{Kind: "conc", Race: true, Conc: &ins[0]})
-		return nil, true
+		msg := "crash"
+		if m := fatalRe.FindString(se.String()); m != "" {
+			msg = m
+		}
+		first := ""
+		for _, l := range strings.Split(se.String(), "\n") {
+			if strings.Contains(l, "Dash-Industry-Forum/livesim2/") && strings.Contains(l, "(") {
+				first = strings.TrimSpace(l)
+				break
+			}
+		}
+		c.Fail(idPrefix+"-crash", "conc:fatal:"+msg, fmt.Sprintf("the process died while 16 goroutines used one limiter%s: %s; first livesim2 frame: %s", suffix, msg, first),
+			c20in{Kind: "conc", Race: race, Conc: &ins[0]})
+		return nil
 	}
 	for i, in := range ins {
 		in := in
 		for _, f := range res[strconv.Itoa(i)] {
-			c.Fail(fmt.Sprintf("%s-race-%d", idPrefix, i), f.Key, f.What+" (under -race)", c20in{Kind: "conc", Conc: &in, Race: true})
+			c.Fail(fmt.Sprintf("%s-%d", idPrefix, i), f.Key, f.What+suffix, c20in{Kind: "conc", Conc: &in, Race: race})
 		}
+	}
+	if !race {
+		return nil
 	}
 	pairs = parseRaces(se.String())
 	for _, p := range pairs {
@@ -577,8 +592,20 @@ func runRaceChild(c *lib.Ctx, rb *raceBuild, ins []concIn, idPrefix string) (pai
 		if i := strings.Index(blk, "WARNING: DATA RACE"); i >= 0 {
 			blk = blk[i:]
 		}
-		c.Fail(idPrefix+"-race", "race:"+p[0]+"/"+p[1], what, map[string]any{"kind": "conc", "race": true, "conc": ins[0], "scenarios": ins, "first_report": tail2(blk, 1500)})
+		c.Fail(idPrefix, "race:"+p[0]+"/"+p[1], what, map[string]any{"kind": "conc", "race": true, "conc": ins[0], "scenarios": ins, "first_report": tail2(blk, 1500)})
 	}
+	return pairs
+}
+
+// runRaceChild waits for the -race build and runs the scenarios in it.
+func runRaceChild(c *lib.Ctx, rb *raceBuild, ins []concIn, idPrefix string) (pairs [][2]string, ran bool) {
+	<-rb.done
+	if rb.err != "" {
+		c.Res.Notes = append(c.Res.Notes, "race detector not usable here (go build -race failed), concurrent part ran as stress only: "+rb.err)
+		c.Count("race-detector:unavailable")
+		return nil, false
+	}
+	pairs = runChild(c, rb.exe, true, ins, idPrefix+"-race")
 	c.Count(fmt.Sprintf("race-detector:ran(build %.0fs)", rb.secs))
 	return pairs, true
 }
@@ -600,17 +627,25 @@ func concurrentPart(c *lib.Ctx, rng *rand.Rand, rb *raceBuild, idBase int) int {
 	if c.Thorough() {
 		reps = 6
 	}
+	var all []concIn
 	for r := 0; r < reps; r++ {
 		for i := range scen {
 			in := scen[i]
 			in.Seed += int64(r)
-			id := fmt.Sprintf("conc-%s-%d-%d", in.Mode, i, r)
+			id := fmt.Sprintf("conc-%d", len(all))
 			c.Res.Inputs[id] = c20in{Kind: "conc", Conc: &in}
-			for _, f := range runConc(in) {
-				c.Fail(id, f.Key, f.What, c20in{Kind: "conc", Conc: &in})
-			}
+			all = append(all, in)
 			c.Count("conc:" + in.Mode)
 			n++
+		}
+	}
+	if exe, err := os.Executable(); err == nil {
+		runChild(c, exe, false, all, "conc")
+	} else {
+		for i, in := range all {
+			for _, f := range runConc(in) {
+				c.Fail(fmt.Sprintf("conc-%d", i), f.Key, f.What, c20in{Kind: "conc", Conc: &in})
+			}
 		}
 	}
 	pairs, ran := runRaceChild(c, rb, scen, "conc")
